@@ -756,6 +756,8 @@ def iterate(eng, st, v):
             yield st, keys
         else:
             yield from iterate(eng, st, c.keys)
+    elif isinstance(c, ZipSeq):
+        yield st, c
     elif isinstance(c, IterView):
         yield from c.items(eng, st)
     elif inspect.isclass(c) and issubclass(c, enum.Enum):
@@ -1464,13 +1466,34 @@ def _enumerate(eng, st, args, kw, node):
 def _zip(eng, st, args, kw, node):
     def go(i, s, acc):
         if i == len(args):
-            yield s, tuple(zip(*acc))
+            yield from finish(s, acc)
             return
         for s1, items in iterate(eng, s, args[i]):
-            if not isinstance(items, list):
-                raise Unsupported("zip over symbolic-length sequence")
             yield from go(i + 1, s1, acc + [items])
+
+    def finish(s, acc):
+        if all(isinstance(x, list) for x in acc):
+            yield s, tuple(zip(*acc))
+            return
+        parts = [x if not isinstance(x, list) else None for x in acc]
+        if any(p is None for p in parts):
+            raise Unsupported("zip mixing concrete and symbolic-length sequences")
+        yield s, ZipSeq(parts)
     yield from go(0, st, [])
+
+
+class ZipSeq:
+    """zip(...) over symbolic-length sequences: element i is the tuple of the i-th elements, length is the minimum"""
+
+    def __init__(self, parts):
+        self.parts = parts
+        n = parts[0].n
+        for p in parts[1:]:
+            n = z3.If(p.n < n, p.n, n)
+        self.n = n
+
+    def at(self, i):
+        return tuple(p.at(i) for p in self.parts)
 
 
 @builtin(reversed)
